@@ -473,10 +473,14 @@ def r10d(P, R):
         imp0 = P.fn(PR + "utils::interface_implementers")
         imp = inlined(P, imp0)
         name_params = {b["local"] for p_, t in zip(imp.params, imp.sig_inputs) if peel_ty(t).strip() == "str" for b in subnodes(p_) if b.get("k") == "Binding"}
-        parts = {"Schema::iter_types": calls_anywhere(imp, "Schema::iter_types"),
+        # which of the schema's types are visited, in which order, is not this property's subject (a union of types is the same
+        # type in any order; determinism is C17's): any accessor of the Schema that walks its types will do
+        from facts import node_callees
+        walks_schema = any(p and p.startswith("graphql_type_system::schema::Schema::") for n in imp.walk() for pair in node_callees(n) for p in pair)
+        parts = {"the schema's types": walks_schema,
                  "ObjectDefinition.interfaces": ("graphql_type_system::definitions::ObjectDefinition", "interfaces") in field_reads(imp),
                  "the interface name": any(x.get("k") == "Path" and x.get("local") in name_params for x in subnodes(imp.body))}
-        R.check("R10-d", "implementers-definition", all(parts.values()), "implementers = objects whose `interfaces` contain the interface name, in schema order",
+        R.check("R10-d", "implementers-definition", all(parts.values()), "implementers = objects of the schema whose `interfaces` contain the interface name",
                 "interface_implementers is not `objects whose interfaces contain the name`: it does not depend on %s" % [k for k, v in parts.items() if not v], loc=imp0.loc())
 
     def _part6():
